@@ -56,6 +56,7 @@ def register(S):
           SOCK + ".closed", SOCK + ".failed", "self._seqcounter.nxt", "self._local_objects._dict",
           "self._request_callbacks", "self._closed", "self._last_traceback"]
     ALLMODS = sorted(set(IO + TEARDOWN_MODS))
+    NOSOCK = [m for m in ALLMODS if not m.startswith(SOCK)]
     QUIET = {"self._sendlock.held": "False", "self._send_queue.items": "nil()"}
     CFG = ["haskey(self._config, 'close_catchall')", "haskey(self._config, 'logger')",
            # scope: no before_closed hook configured (it fetches the remote root, i.e. serves traffic re-entrantly)
@@ -73,21 +74,21 @@ def register(S):
                    # the transport is already dead (end-of-stream or an I/O failure met while serving)
                    "first_dead": dict(init=dict(QUIET, **{"self._channel.stream.sock": "ClosedFile"}),
                                       requires=CFG + ["not self._closed", "not isnone(self._local_root)"],
-                                      ensures={"closed_and_clean": (CLEAN, P11),
+                                      ensures={"send_lock_free": ("not self._sendlock.held", P11), "closed_and_clean": (CLEAN, P11),
                                                "disconnect_hook_exactly_once": (
                                                    "n_callees('_cleanup') == 1 and callee_arg('_cleanup', 0, '_anyway') == True", P11)},
-                                      raises={"BaseException": {"props": P11, "modifies": ALLMODS,
-                                                                "state": [CLEAN, "n_callees('_cleanup') == 1"]}},
-                                      modifies=ALLMODS),
+                                      raises={"BaseException": {"props": P11, "modifies": NOSOCK,
+                                                                "state": [CLEAN, "n_callees('_cleanup') == 1", "not self._sendlock.held"]}},
+                                      modifies=NOSOCK),
                    "first": dict(init=QUIET,
                                  requires=CFG + ["not self._closed", "not isnone(self._local_root)", "not %s.failed" % SOCK],
-                                 ensures={"closed_and_clean": (CLEAN, P11),
+                                 ensures={"send_lock_free": ("not self._sendlock.held", P11), "closed_and_clean": (CLEAN, P11),
                                           "disconnect_hook_exactly_once": (
                                               "n_callees('_cleanup') == 1 and callee_arg('_cleanup', 0, '_anyway') == True", P11)},
                                  raises={"BaseException": {
                                      "props": P11, "modifies": ALLMODS, "sets": {"self._channel.stream.sock": "ClosedFile"},
                                      # whatever escapes (close_catchall off, or a BaseException), the side is clean
-                                     "state": [CLEAN, "n_callees('_cleanup') == 1"]}},
+                                     "state": [CLEAN, "n_callees('_cleanup') == 1", "not self._sendlock.held"]}},
                                  sets={"self._channel.stream.sock": "ClosedFile"}, modifies=ALLMODS),
                })
     S.contract(F + "closed", params={"self": "obj:Connection"}, inline=True, note="property: self._closed")
@@ -110,3 +111,79 @@ def register(S):
                ensures={"closes": ("n_callees('close') == 1 and n_events() == 1", P11)},
                raises={"BaseException": {"props": P11, "modifies": ALLMODS, "state": ["n_callees('close') == 1"]}},
                modifies=ALLMODS)
+
+    # ---- serving -----------------------------------------------------------------------------------------------
+    S.declare_fields("Condition", waiters="int")
+    S.external("Condition.wait", params={"self": "obj:Condition", "timeout": "any"}, result="bool", defaults={"timeout": None},
+               note="Condition.wait(t): returns True (notified) or False (timed out); sequential model: no other effect")
+    S.externals["Condition.wait"].outcomes = [{"label": "returns"}]
+    S.external("Condition.notify_all", params={"self": "obj:Condition"}, result="none",
+               outcomes=[{"label": "ok", "events": [("Notify", "self")]}],
+               note="Condition.notify_all(): a ghost event (threads parked in wait() are woken); no other effect in the sequential model")
+    S.contract(C + "poll", params={"self": "obj:Channel", "timeout": "any"}, result="bool", trusted=True,
+               dispatch=[("self.stream.sock is ClosedFile", "closed"), (None, "default")],
+               note="ASSUMED (Stream.poll uses select/poll objects): whether input is pending within the timeout; on a "
+                    "closed stream fileno() raises EOFError; select errors may escape; no bytes are consumed",
+               behaviours={"closed": dict(init={"self.stream.sock": "ClosedFile"}, noreturn=True,
+                                          raises={"EOFError": {"props": P11, "modifies": []}}, modifies=[])},
+               ensures={}, raises={"OSError": {"props": P11, "modifies": []},
+                                   "EOFError": {"props": P11, "sets": {"self.stream.sock": "ClosedFile"},
+                                                "modifies": ["self.stream.sock", "self.stream.sock.shut_attempted",
+                                                             "self.stream.sock.closed", "self.stream.sock.failed"]}},
+               modifies=[], clock=True)
+    SERVE_REQ = CFG + ["not self._closed", "not isnone(self._local_root)", "not %s.failed" % SOCK, "not self._recvlock.held",
+                       "haskey(self._config, 'propagate_SystemExit_locally')",
+                       "haskey(self._config, 'propagate_KeyboardInterrupt_locally')"]
+    MAYBE_DEAD = [{"label": "transport open", "sets": {"self._channel.stream.sock": "old(self._channel.stream.sock)"},
+                   "modifies": [m for m in ALLMODS if m not in (SOCK, SOCK + ".shut_attempted", SOCK + ".closed", SOCK + ".failed")]
+                   + ["self._recvlock.held"]},
+                  {"label": "transport died", "sets": {"self._channel.stream.sock": "ClosedFile"},
+                   "modifies": ALLMODS + ["self._recvlock.held"]}]
+    S.contract(F + "serve", params={"self": "obj:Connection", "timeout": "val", "wait_for_lock": "any"}, result="any",
+               init=QUIET, clock=True,
+               requires=SERVE_REQ + ["isnone(timeout) or (isnum(timeout) and num_of(timeout) >= 0)"],
+               calls={"recv": {"behaviour": "safety"}},
+               ensures={"receive_lock_released": ("not self._recvlock.held", P11 + ["C13"]),
+                        # whoever took the receive lock wakes the threads parked on the condition before leaving, on
+                        # every exit - otherwise a request blocked waiting for the lock never learns that the
+                        # connection ended (necessary for `none hangs`; the interleavings themselves are out of reach)
+                        "internal_waiters_woken": ("implies(n_ev('LockTaken') >= 1, n_ev('Notify') >= 1)", ["C11"]),
+                        "quiescent_after": ("isnil(self._send_queue.items) and not self._sendlock.held and "
+                                            "implies(not self._closed, not isnone(self._local_root))", P11)},
+               raises={
+                   # end-of-stream or an I/O failure met while receiving: this side becomes closed (hook run, tables
+                   # released) BEFORE the error is re-raised
+                   "EOFError": {"props": P11, "modifies": ALLMODS + ["self._recvlock.held"],
+                                "variants": [
+                                    {"label": "while receiving", "if_trace": "n_callees('close') == 1",
+                                     "sets": {"self._channel.stream.sock": "ClosedFile"},
+                                     "state": ["not self._recvlock.held", "not self._sendlock.held", CLEAN,
+                                               "implies(n_ev('LockTaken') >= 1, n_ev('Notify') >= 1)"]},
+                                    {"label": "from the dispatched message, connection down",
+                                     "sets": {"self._channel.stream.sock": "ClosedFile"},
+                                     "state": ["not self._recvlock.held", "n_callees('_dispatch') == 1", "not self._sendlock.held",
+                                               "implies(not self._closed, not isnone(self._local_root))"]},
+                                    {"label": "from the dispatched message", "sets": {"self._channel.stream.sock": "old(self._channel.stream.sock)"},
+                                     "modifies": [m for m in ALLMODS if not m.startswith(SOCK)] + [SOCK + ".outbuf", SOCK + ".inbuf", "self._recvlock.held"],
+                                     "state": ["not self._recvlock.held", "n_callees('_dispatch') == 1", "not self._sendlock.held",
+                                               "implies(not self._closed, not isnone(self._local_root))"]}]},
+                   "BaseException": {"props": P11, "variants": MAYBE_DEAD, "state": [
+                       "not self._recvlock.held", "not self._sendlock.held", "implies(n_ev('LockTaken') >= 1, n_ev('Notify') >= 1)",
+                       "implies(not self._closed, not isnone(self._local_root))"]}},
+               modifies=[m for m in ALLMODS if m not in (SOCK, SOCK + ".shut_attempted", SOCK + ".closed", SOCK + ".failed")] + ["self._recvlock.held"])
+
+    # serve_all: closed on EVERY exit path
+    S.contract(F + "serve_all", params={"self": "obj:Connection"}, init=QUIET, clock=True,
+               requires=CFG + ["implies(not self._closed, not isnone(self._local_root))", "not %s.failed" % SOCK,
+                               "not self._recvlock.held", "haskey(self._config, 'propagate_SystemExit_locally')",
+                               "haskey(self._config, 'propagate_KeyboardInterrupt_locally')"],
+               calls={"serve": {"ghost": {}}},
+               ensures={"always_closes": ("self._closed and n_callees('close') == 1", P11 + ["C16"])},
+               raises={"BaseException": {"props": P11 + ["C16"], "state": ["self._closed", "n_callees('close') == 1"],
+                                         "variants": MAYBE_DEAD}},
+               modifies=ALLMODS + ["self._recvlock.held"],
+               loops={0: {"modifies": [m for m in ALLMODS if not m.startswith(SOCK)] + ["self._recvlock.held"], "clock": True,
+                          "local_trace": True,
+                          "invariant": ["not self._recvlock.held", "isnil(self._send_queue.items)", "not self._sendlock.held",
+                                        "%s is old(%s)" % (SOCK, SOCK), "not %s.failed" % SOCK,
+                                        "implies(not self._closed, not isnone(self._local_root))"]}})
